@@ -1,8 +1,27 @@
 #!/usr/bin/env python3
-"""API-surface tie: every public function / trait impl of /repo/src must be listed in coq/MODELLED.tsv
-(entry -> model definition).  A public entry that is not in the table means the theorems quantifying over
-"any operation" no longer cover the API."""
+"""API-surface tie: every public method of an inherent impl and every method of a trait impl in /repo/src must be
+listed in coq/MODELLED.tsv (entry -> model definition).  An entry that is not in the table means the theorems
+quantifying over "any operation" no longer cover the API.  Brace depth is tracked, so that free functions (private
+helpers, also `pub fn` in the crate's private modules), functions nested in bodies and everything inside
+`macro_rules!` definitions are NOT entries (a behaviour-preserving refactor adds those freely); the correspondence and
+the coverage tie still run over whatever code they contain."""
 import os, re, sys
+
+
+def _strip(line):
+    """drop line comments and the contents of string / char literals (good enough for brace counting)"""
+    line = re.sub(r'"(?:\\.|[^"\\])*"', '""', line)
+    line = re.sub(r"'(?:\\.|[^'\\])'", "' '", line)
+    i = line.find("//")
+    return line if i < 0 else line[:i]
+
+
+def _norm_hdr(h):
+    hdr = re.sub(r"<[^<>]*>", "", h)
+    hdr = re.sub(r"<[^<>]*>", "", hdr)
+    hdr = re.sub(r"\s+", " ", hdr).replace("{", "").strip()
+    return re.sub(r"\bwhere\b.*", "", hdr).strip()
+
 
 def surface(root="/repo/src"):
     out = []
@@ -12,16 +31,12 @@ def surface(root="/repo/src"):
                 continue
             p = os.path.join(dp, f)
             rel = os.path.relpath(p, root)
-            src = open(p).read()
-            src = src.split("#[cfg(test)]")[0]
-            impl = ""
-            trait_impl = ""
-            # join multi-line impl headers ("impl<...> Trait<..>\n    for Type<..>\nwhere ...{") into one line
-            lines = []
-            pending = None
-            for line in src.split("\n"):
-                st = line.strip()
-                if st.startswith("//"):
+            src = open(p).read().split("#[cfg(test)]")[0]
+            # join multi-line impl headers into one line
+            lines, pending = [], None
+            for raw in src.split("\n"):
+                st = _strip(raw).strip()
+                if not st:
                     continue
                 if pending is not None:
                     pending += " " + st
@@ -29,40 +44,55 @@ def surface(root="/repo/src"):
                         lines.append(pending)
                         pending = None
                     continue
-                if re.match(r"(unsafe\s+)?impl\b", st) and "{" not in st:
+                if re.match(r"(unsafe\s+)?impl\b", st) and "{" not in st and not st.endswith(";"):
                     pending = st
                     continue
-                lines.append(line)
-            for line in lines:
-                s = line.strip()
-                if s.startswith("//"):
-                    continue
-                m = re.match(r"(unsafe\s+)?impl\b(.*)", s)
-                if m and "{" in s or (m and s.endswith(">")):
-                    hdr = re.sub(r"<[^<>]*>", "", m.group(2))
-                    hdr = re.sub(r"<[^<>]*>", "", hdr)
-                    hdr = re.sub(r"\s+", " ", hdr).replace("{", "").strip()
-                    hdr = re.sub(r"\bwhere\b.*", "", hdr).strip()
-                    impl = hdr
-                m = re.match(r"pub\s+(?:const\s+)?(?:unsafe\s+)?fn\s+(\w+)", s)
-                if m:
-                    out.append(f"{rel}:{impl}::{m.group(1)}")
-                hs = re.sub(r"<[^<>]*>", "", s)
-                hs = re.sub(r"<[^<>]*>", "", hs)
-                hs = re.sub(r"<[^<>]*>", "", hs)
-                m = re.match(r"(?:unsafe\s+)?impl\b\s*(\S+)\s+for\s+(\S+)", hs)
-                if m and not s.startswith("pub"):
-                    t = m.group(1).split("::")[-1]
-                    for_ = m.group(2).replace("{", "").split("::")[-1]
-                    trait_impl = f"impl {t} for {for_}"
-                    out.append(f"{rel}:{trait_impl}")
-                elif re.match(r"(?:unsafe\s+)?impl\b", s):
-                    trait_impl = ""
-                m = re.match(r"(?:unsafe\s+)?fn\s+(\w+)", s)
-                if m and trait_impl:
-                    out.append(f"{rel}:{trait_impl}::{m.group(1)}")
+                lines.append(st)
+            depth = 0
+            ctx = []          # stack of (kind, depth inside the block, inherent header, trait-impl name)
+            for s in lines:
+                opener = None
+                if re.match(r"macro_rules!", s):
+                    opener = ("macro", None, None)
+                else:
+                    m = re.match(r"(unsafe\s+)?impl\b(.*)", s)
+                    if m and "{" in s:
+                        hs = re.sub(r"<[^<>]*>", "", s)
+                        hs = re.sub(r"<[^<>]*>", "", hs)
+                        hs = re.sub(r"<[^<>]*>", "", hs)
+                        mt = re.match(r"(?:unsafe\s+)?impl\b\s*(\S+)\s+for\s+(\S+)", hs)
+                        if mt:
+                            t = mt.group(1).split("::")[-1]
+                            for_ = mt.group(2).replace("{", "").split("::")[-1]
+                            opener = ("trait", None, f"impl {t} for {for_}")
+                        else:
+                            opener = ("inherent", _norm_hdr(m.group(2)), None)
+                in_macro = any(c[0] == "macro" for c in ctx)
+                top = ctx[-1] if ctx else None
+                if opener and opener[0] == "trait" and not in_macro:
+                    out.append(f"{rel}:{opener[2]}")
+                if top and not in_macro and depth == top[1]:
+                    if top[0] == "inherent":
+                        m = re.match(r"pub\s+(?:const\s+)?(?:unsafe\s+)?fn\s+(\w+)", s)
+                        if m:
+                            out.append(f"{rel}:{top[2]}::{m.group(1)}")
+                    elif top[0] == "trait":
+                        m = re.match(r"(?:unsafe\s+)?fn\s+(\w+)", s)
+                        if m:
+                            out.append(f"{rel}:{top[3]}::{m.group(1)}")
+                for ch in s:
+                    if ch == "{":
+                        depth += 1
+                        if opener is not None:
+                            ctx.append((opener[0], depth, opener[1], opener[2]))
+                            opener = None
+                    elif ch == "}":
+                        depth -= 1
+                        while ctx and depth < ctx[-1][1]:
+                            ctx.pop()
     return sorted(set(out))
 
+
 if __name__ == "__main__":
-    for e in surface():
+    for e in surface(sys.argv[1] if len(sys.argv) > 1 else "/repo/src"):
         print(e)
